@@ -12,6 +12,9 @@ type intrinsicFn func(ex *Exec, st *State, fn *ssa.Function, args []Value, depth
 
 var intrinsics = map[string]intrinsicFn{}
 
+// summaryIntrinsics: exact summaries of repo functions, disabled by stubs=nosum (see summaries.go)
+var summaryIntrinsics = map[string]intrinsicFn{}
+
 // estimators whose results only flow to the (nil) gauge in arithmetic harnesses; subject of C32
 var meteringStubRe = regexp.MustCompile(`^github.com/onflow/cadence/common\.(New(Plus|Minus|Mul|Mod|Div|BitwiseOr|BitwiseXor|BitwiseAnd|BitwiseLeftShift|BitwiseRightShift|Negate)BigIntMemoryUsage|NewBigIntsWordSliceOperation)$`)
 
@@ -87,6 +90,10 @@ func (ex *Exec) tryIntrinsic(st *State, fn *ssa.Function, args []Value, depth in
 			vals[i] = ex.zero(res.At(i).Type())
 		}
 		return []Outcome{{St: st, Kind: ORet, Vals: vals}}, true
+	}
+	if f, ok := summaryIntrinsics[name]; ok && !ex.StubSets["nosum"] {
+		ex.noteStub("summary:" + name)
+		return ex.runIntrinsic(st, func(s *State) []Value { return f(ex, s, fn, args, depth) }), true
 	}
 	if f, ok := intrinsics[name]; ok {
 		ex.noteStub(name)
@@ -201,6 +208,14 @@ func (ex *Exec) shimIntrinsic(st *State, fn *ssa.Function, args []Value, depth i
 		return ex.runIntrinsic(st, func(s *State) []Value {
 			label, _ := args[0].(StrV).Concrete()
 			s.Asserts = append(s.Asserts, AssertRec{Label: label, Cond: args[1].(*Term), PCLen: len(s.PC), KF: s.KF})
+			return nil
+		}), true
+	case "zzLemma":
+		return ex.runIntrinsic(st, func(s *State) []Value {
+			label, _ := args[0].(StrV).Concrete()
+			c := args[1].(*Term)
+			s.Asserts = append(s.Asserts, AssertRec{Label: label, Cond: c, PCLen: len(s.PC), KF: s.KF})
+			s.Assume(c)
 			return nil
 		}), true
 	case "zzKnownFinding":
